@@ -532,6 +532,10 @@ func (rw *rewriter) callExpr(x *ast.CallExpr) (string, bool) {
 	if _, ok := rw.pkgFunc(x, "time", "Sleep"); ok {
 		return fmt.Sprintf("_simrt.Sleep(%d, %s)", rw.site(x, "sleep"), rw.args(x)), true
 	}
+	if _, ok := rw.pkgFunc(x, "time", "NewTimer"); ok {
+		rw.stats["timer"]++
+		return fmt.Sprintf("_simrt.NewTimer(%s)", rw.args(x)), true
+	}
 	if nm, ok := rw.pkgFunc(x, "math/rand/v2", "IntN"); ok {
 		return fmt.Sprintf("_simrt.RandIntN(%d, %s, %s.IntN)", rw.site(x, "rand"), rw.args(x), nm), true
 	}
@@ -641,6 +645,17 @@ func (rw *rewriter) callExpr(x *ast.CallExpr) (string, bool) {
 			return "", false
 		}
 		return fmt.Sprintf("_simrt.YA(%d, %s).%s(%s)", rw.site(x, "atomic"), p, m, rw.args(x)), true
+	case namedIs(rt, "time", "Timer") && (m == "Stop" || m == "Reset"):
+		p, _, ok := rw.recvOperand(selx)
+		if !ok {
+			rw.unsupported(x, "timer call")
+			return "", false
+		}
+		rw.stats["timer"]++
+		if m == "Stop" {
+			return fmt.Sprintf("_simrt.TimerStop(%s)", p), true
+		}
+		return fmt.Sprintf("_simrt.TimerReset(%s, %s)", p, rw.args(x)), true
 	case namedIs(rt, "net", "Dialer") && m == "DialContext":
 		p, _, ok := rw.recvOperand(selx)
 		if !ok {
